@@ -304,6 +304,9 @@ static void *_wdog(void *args)
             return NULL;
 
         for (i = 0; t[i].host != NULL; i++) {
+            /* a worker leaves RCMD/READING only under thd_mutex: while we hold it, a slot
+             *  in one of these states has a live thread, so its id is valid */
+            dsh_mutex_lock(&thd_mutex);
             switch (t[i].state) {
             case DSH_RCMD:
                 if (_thd_connect_timeout (&t[i]))
@@ -319,6 +322,7 @@ static void *_wdog(void *args)
             case DSH_CANCELED:
                 break;
             }
+            dsh_mutex_unlock(&thd_mutex);
         }
         sleep (WDOG_POLL);
     }
@@ -1163,6 +1167,7 @@ int dsh(opt_t * opt)
 
     /* start the watchdog thread */
     _dsh_attr_init (&attr_wdog, DSH_THREAD_STACKSIZE);
+    pthread_attr_setdetachstate (&attr_wdog, PTHREAD_CREATE_JOINABLE);
     rv = pthread_create(&thread_wdog, &attr_wdog, _wdog, (void *) t);
 
     /* start the signals thread */
@@ -1218,6 +1223,13 @@ int dsh(opt_t * opt)
 
     if (debug)
         _dump_debug_stats(rshcount);
+
+    /*
+     * Stop the watchdog before the thread array is freed (first: it may have to wait
+     *  for thd_mutex, which the signals thread releases only while it is alive)
+     */
+    pthread_cancel(thread_wdog);
+    pthread_join(thread_wdog, NULL);
 
     /*
      * Cancel signals thread and unblock SIGINT/SIGTSTP
